@@ -116,6 +116,18 @@ Proof.
 Qed.
 Print Assumptions C04_history.
 
+(* in every reachable state every node is registered under its own id, its battery
+   level is a percentage, and child ids / value types are unique keys *)
+Theorem C04_nodes_well_formed :
+  forall bat vlt now metric ops,
+    Forall op_ok ops ->
+    Forall (fun kn => node_inv (fst kn) (snd kn)) (w_nodes (run_ops bat vlt now (init_world metric) ops)).
+Proof.
+  intros bat vlt now metric ops H.
+  destruct (run_ops_inv bat vlt now ops _ (Inv_init vlt metric) H) as [Hi _]. exact (inv_nodes _ _ Hi).
+Qed.
+Print Assumptions C04_nodes_well_formed.
+
 (* which (class, method) pair serves which handler name: the bodies above are the
    ones the generated dispatch tables reach *)
 Theorem C04_tables :
